@@ -1,7 +1,7 @@
 (* C19 - the statements used by Props/C19.v, in the form "for every history / every schedule". *)
 From Coq Require Import List ZArith NArith Bool Lia Sorted.
 From Orso Require Import Model.C19.
-From Orso Require Export Proofs.C19_Seq Proofs.C19_Conc Proofs.C19_Reent Proofs.C19_Multi.
+From Orso Require Export Proofs.C19_Seq Proofs.C19_Conc Proofs.C19_Reent Proofs.C19_Multi Proofs.C19_Df.
 Import ListNotations.
 
 Section Reach.
